@@ -97,9 +97,10 @@ class CompiledLogicNet(torch.nn.Module):
         self.layer_order, self.num_classes, self.input_shape = [], None, None
         # The layers are translated as a plain chain: a container whose forward is not torch.nn.Sequential's own
         # (a subclass overriding forward, a ModuleList, ...) computes something else.
-        if type(self.model).forward is not torch.nn.Sequential.forward:
+        if (type(self.model).forward is not torch.nn.Sequential.forward or type(self.model).__call__ is not torch.nn.Module.__call__
+                or type(self.model)._call_impl is not torch.nn.Module._call_impl):
             raise ValueError(
-                f"Cannot compile a {type(self.model).__name__}: its forward is not the plain chain of torch.nn.Sequential."
+                f"Cannot compile a {type(self.model).__name__}: its forward / call is not the plain chain of torch.nn.Sequential."
             )
         self._refuse_patched(self.model)
         # Find GroupSum layer for num_classes
@@ -143,6 +144,10 @@ class CompiledLogicNet(torch.nn.Module):
                 self.layer_order.append(('pool', len(self.pooling_layers) - 1))
             elif isinstance(layer, LogicDense):
                 self._check_wiring_range(type(layer).__name__, layer.indices, (layer.in_dim,))
+                if any(len(idx) != layer.weight.shape[0] for idx in layer.indices):
+                    # one gate statement is emitted per (pair, gate): wiring set by hand with another number of pairs than there
+                    # are neurons would leave outputs unwritten (PyTorch broadcasts a single weight row over the pairs)
+                    raise ValueError(f"Cannot compile {type(layer).__name__}: {len(layer.indices[0])} wired pairs for {layer.weight.shape[0]} neurons.")
                 self.linear_layers.append(
                     (layer.indices[0], layer.indices[1], layer.get_gate_ids())
                 )
